@@ -42,7 +42,7 @@ TOKEN = re.compile(
     r"|\bWAIT\s*\(\s*([^(),]*?)\s*,\s*([^()]*?)\s*\)"
     r"|\b(pthread_create|pthread_join|THREAD_JOIN|rfbIncrClientRef|rfbDecrClientRef|rfbClientIteratorNext|"
     r"rfbGetClientIteratorWithClosed|rfbGetClientIterator|rfbReleaseClientIterator|rfbCloseClient|rfbClientConnectionGone|rfbWriteExact|"
-    r"rfbShutdownSockets|rfbStartOnHoldClient|rfbNewClient|free)\s*\("
+    r"rfbShutdownSockets|rfbStartOnHoldClient|rfbNewClient|rfbMarkRectAsModified|free)\s*\("
     r"|\bwrite\s*\(\s*([a-zA-Z_>\-\.]*pipe_notify[a-z_]*)"
     r"|\b(return|break|continue)\b"
     r"|(cl->state\s*=\s*RFB_SHUTDOWN|cl->sock\s*=\s*RFB_INVALID_SOCKET|cl->state\s*(?:==|!=)\s*RFB_SHUTDOWN|cl->state\s*!=\s*RFB_NORMAL)"
